@@ -93,7 +93,7 @@ int main(int argc, char **argv) {
         for (p = strtok(line, " \n"); p && ntok < MAXTOK; p = strtok(NULL, " \n")) tok[ntok++] = p;
         if (ntok == 0) { fprintf(out, "empty 0\n"); continue; }
         op = tok[0];
-        alarm(20);
+        alarm(10);
         if (!strcmp(op, "create")) {
             int fmt = atoi(tok[2]), cmode = atoi(tok[6]) ? NC_NOCLOBBER : NC_CLOBBER;
             MPI_Info info = mkinfo(tok[3], tok[4], tok[5]);
